@@ -62,6 +62,12 @@ def c01_file(draw):
     for _ in range(nblocks):
         if mothers and draw(st.integers(0, 3)) == 0:
             m = draw(st.sampled_from(mothers))  # repeated mother
+        elif mothers and draw(st.integers(0, 5)) == 0:
+            # a name that differs from an earlier mother in letter case only is another particle (b_1+ / B_1+, a0 / A0)
+            m0 = draw(st.sampled_from(mothers))
+            m = draw(st.sampled_from((m0.swapcase(), m0.upper(), m0.lower(), m0.capitalize())))
+            if not N.safe_label(m) or m in def_names or m in mal_names:
+                m = m0
         else:
             m = draw(st.sampled_from(pool))
         mothers.append(m)
@@ -96,6 +102,8 @@ def classes(f):
     ms = [b["m"] for b in blocks]
     if len(set(ms)) < len(ms):
         out.append("repeated-mother")
+    if len({x.lower() for x in set(ms)}) < len(set(ms)):
+        out.append("mothers-differing-in-case-only")
     if any(not b["lines"] for b in blocks):
         out.append("empty-block")
     lines = [ln for b in blocks for ln in b["lines"]]
